@@ -522,7 +522,7 @@ func (w *World) puppet(rc *roundCtx, phaseFired lib.Phase) {
 
 // lockVeto hands the elected leader, before any other election vote, a validly signed ELECTION_VOTE of the Byzantine
 // node that carries the highest lock certificate seen on the network (with its block and results) and the
-// root-chain build height 0.
+// root-chain build height off by one (it passes the cheap lower-bound check and fails the controller's validation).
 func (w *World) lockVeto(rc *roundCtx) {
 	byz := w.Cfg.Byz
 	if byz < 0 || w.Down(byz) || len(w.Certs) == 0 {
@@ -543,7 +543,7 @@ func (w *World) lockVeto(rc *roundCtx) {
 	hq := &lib.QuorumCertificate{Header: best.QC.Header.Copy(), BlockHash: best.QC.BlockHash, ResultsHash: best.QC.ResultsHash, ProposerKey: best.QC.ProposerKey,
 		Signature: best.QC.Signature, Block: best.Block, Results: best.Results}
 	m := &bft.Message{Qc: &lib.QuorumCertificate{Header: &lib.View{NetworkId: NetworkID, ChainId: ChainID, Height: ChainHeight, RootHeight: rc.rh, Round: rc.round, Phase: lib.Phase_ELECTION_VOTE},
-		ProposerKey: w.Nodes[rc.leader].Key.PublicKey().Bytes()}, HighQc: hq, RcBuildHeight: 0}
+		ProposerKey: w.Nodes[rc.leader].Key.PublicKey().Bytes()}, HighQc: hq, RcBuildHeight: best.RCBuild + 1}
 	if err := m.Sign(w.Nodes[byz].Key); err != nil {
 		return
 	}
@@ -554,7 +554,7 @@ func (w *World) lockVeto(rc *roundCtx) {
 		if err != nil {
 			es = " ERR " + strings.ReplaceAll(err.Error(), "\n", " ")
 		}
-		w.tracef("veto ELECTION_VOTE n%d->n%d with lock %x@rh%d/r%d and rcBuildHeight 0%s", byz, rc.leader, hq.BlockHash[:4], hq.Header.RootHeight, hq.Header.Round, es)
+		w.tracef("veto ELECTION_VOTE n%d->n%d with lock %x@rh%d/r%d and rcBuildHeight %d (built at %d)%s", byz, rc.leader, hq.BlockHash[:4], hq.Header.RootHeight, hq.Header.Round, best.RCBuild+1, best.RCBuild, es)
 	}
 }
 
